@@ -94,6 +94,7 @@ class ArchiveScanner:
 
     def scan(self, verbose):
         found = False
+        seen = set()
         try:
             self.__db.execute("BEGIN")
             for l1 in self.__archiver.listDir("."):
@@ -105,7 +106,11 @@ class ArchiveScanner:
                         m = self.__archiveSchema.fullmatch(l3)
                         if not m: continue
                         found = True
-                        self.__scan(os.path.join(l2, l3), verbose)
+                        seen.add(self.__scan(os.path.join(l2, l3), verbose))
+            # Forget artifacts that have vanished from the archive. Otherwise
+            # they are still found and take part in the retention.
+            for bid in self.getBuildIds():
+                if bid not in seen: self.remove(bid)
         except OSError as e:
             raise BobError("Error scanning archive: " + str(e))
         finally:
@@ -127,7 +132,7 @@ class ArchiveScanner:
                                 (bid, self.__archiveKey))
             cachedStat = self.__db.fetchone()
             if cachedStat is not None:
-                if cachedStat[0] == st: return
+                if cachedStat[0] == st: return bid
                 self.__db.execute("DELETE FROM files WHERE bid=? AND arch=?",
                     (bid, self.__archiveKey))
 
@@ -136,7 +141,7 @@ class ArchiveScanner:
             audit = self.__archiver.getAudit(fileName)
             if audit is None:
                 print("\tCould not get audit for ", fileName)
-                return
+                return bid
 
             # import data
             artifact = audit.getArtifact()
@@ -149,6 +154,7 @@ class ArchiveScanner:
                 (bid, st, vrs, self.__archiveKey))
             self.__db.executemany("INSERT OR IGNORE INTO refs VALUES (?, ?, ?)",
                 [ (bid, r, self.__archiveKey) for r in audit.getReferencedBuildIds() ])
+            return bid
         except tarfile.TarError as e:
             raise BobError("Cannot read {}: {}".format(fileName, str(e)))
         except OSError as e:
